@@ -17,6 +17,65 @@ def own_parser(calls):
     return "from_str" in cs or "from_string" in cs or ("parse" in cs and cs <= PLUMBING)
 
 
+def parser_owner_ok(path, base):
+    """does the from_str call `path` belong to type `base`?  `<m::Base as FromStr>::from_str`, `m::Base::from_str`, or an
+    external crate's parser named after the type (`uuid::parser::from_str` for Uuid)"""
+    m = re.match(r"^<(.+) as .*FromStr>::from_str$", path)
+    if m:
+        return strip_generics(m.group(1)).split("::")[-1] == base
+    segs = path.split("::")
+    if len(segs) >= 2 and strip_generics(segs[-2]) == base:
+        return True
+    return segs[0].lower() == base.lower()
+
+
+def elem_base(ty):
+    """last path segment of a type, looking through Vec<..> / Option<..> / Arc<..>"""
+    t = ty.replace(" ", "")
+    for w in ("std::vec::Vec<", "std::option::Option<", "std::sync::Arc<"):
+        while t.startswith(w) and t.endswith(">"):
+            t = t[len(w):-1]
+            if "," in t and w == "std::vec::Vec<":
+                t = t.split(",")[0]
+    return strip_generics(t).split("::")[-1]
+
+
+def typed_own_parser(fcalls, base):
+    """own_parser over full callee paths: a from_str that is present must be the field type's own"""
+    cs = {c.split("::")[-1] for c in fcalls}
+    fs = [c for c in fcalls if c.split("::")[-1] in ("from_str", "from_string")]
+    if fs:
+        return any(parser_owner_ok(c, base) for c in fs)
+    return "parse" in cs and cs <= PLUMBING
+
+
+def direct_own_parser(term, base):
+    """the field value is *directly* what the field type's own parser returned (the Ok / Some payload, possibly through
+    error plumbing), not something built from another type's parse (`Uuid::from_str(v).map(OrderId::from_uuid)`)"""
+    t = term
+    for _ in range(16):
+        if not isinstance(t, tuple) or not t:
+            return False
+        if t[0] == "field" and t[2] in ("Ok", "Some"):
+            t = t[1]
+            continue
+        if t[0] in ("refval",):
+            t = t[1]
+            continue
+        if t[0] == "call" and isinstance(t[1], str):
+            last = t[1].split("::")[-1]
+            if last in ("from_str", "from_string"):
+                return parser_owner_ok(t[1], base)
+            if last == "parse":
+                return True        # the type checker forces parse::<FieldType>, which is FieldType::from_str
+            if last in PLUMBING and t[2]:
+                t = t[2][0]
+                continue
+            return False
+        return False
+    return False
+
+
 RULES = {
     "X1": "tag: the literal prefix Display writes for a type/variant equals the literal the parser matches to build that type/variant",
     "X2": "keys: the key set written equals the key set whose values flow into the value the parser returns (per variant)",
@@ -96,7 +155,7 @@ def run(ctx, chk):
                        "control flow of the hand-written scanners is covered by C18 (totality) and by the key/slot binding checked here"]
     chk.not_decided = ["full control-flow correctness of MatchResult's nested scanner beyond tag/key/slot/bracket agreement"]
     db = ctx.db
-    W = T.Writers(db)
+    W = T.Writers(db, ctx)
     covered = []
     for ty in LISTED:
         try:
@@ -128,8 +187,116 @@ def run(ctx, chk):
             check_level(ctx, chk, db, W, ents, fb)
         elif ty == "MatchResult":
             check_match_result(ctx, chk, db, W, a, ents, paths, allres, fb)
+        if ty in ("TransactionList", "OrderQueue", "PriceLevel", "MatchResult"):
+            check_empty_list(ctx, chk, ty, allres, fb)
     chk.stats["types"] = covered
     chk.require(len(covered) == len(LISTED), "X0", "all-types", "", "covered %s" % covered)
+    chk.require(chk.stats.get("list_splits", 0) >= 1, "X0", "list-splits-seen", "",
+                "no list reader splits its body with str::split (the empty-list rule X9 matched nothing; 1 site confirmed by hand on the pinned tree)")
+
+
+SPLITS = ("core::str::split", "core::str::rsplit", "core::str::splitn", "core::str::rsplitn", "core::str::split_inclusive")
+
+
+def _related(a, b):
+    return a == b or any(x == b for x in subterms(a)) or any(x == a for x in subterms(b))
+
+
+def _filtered_downstream(ctx, allres, closure_name):
+    """is the adapter fed by this closure followed by `.filter(|p| !p.is_empty())` in the same iterator chain?"""
+    for r in allres:
+        for e2 in r.trace:
+            for t in (tuple(e2[2]) if len(e2) > 2 and isinstance(e2[2], tuple) else ()) + ((e2[3],) if len(e2) > 3 else ()):
+                for x in subterms(t):
+                    if isinstance(x, tuple) and x and x[0] == "call" and isinstance(x[1], str) and x[1].endswith("::filter") and len(x[2]) == 2 \
+                            and any(isinstance(y, tuple) and y and y[0] == "agg" and y[1] == closure_name for y in subterms(x[2][0])):
+                        clo = x[2][1]
+                        if isinstance(clo, tuple) and clo[0] == "agg" and isinstance(clo[1], str) and clo[1].startswith("closure:"):
+                            cb = ctx.db.bodies.get(clo[1][len("closure:"):])
+                            if cb is not None and any((bt["term"].get("callee") or {}).get("path", "").endswith("::is_empty")
+                                                      for bt in cb.blocks if bt["term"]["k"] == "call"):
+                                return True
+    return False
+
+
+def check_empty_list(ctx, chk, ty, allres, fb):
+    """X9 (empty list): the writers print nothing between the brackets for an empty list, `"".split(sep)` yields one
+    empty piece and every element parser rejects the empty string - so a list reader that cuts its body with
+    str::split on the list joiner must do so only where the body is known to be non-empty, or drop the empty pieces
+    (`.filter(|p| !p.is_empty())`)."""
+    seen = {}
+    for r in allres:
+        for i, e in enumerate(r.trace):
+            if e[0] != "call" or e[1] not in SPLITS or len(e) < 8:
+                continue
+            args = e[2]
+            pat = args[-1] if e[1] in ("core::str::split", "core::str::rsplit", "core::str::split_inclusive") else (args[2] if len(args) > 2 else None)
+            patc = chr(pat[1]) if is_int(pat) and 0 <= pat[1] < 0x110000 else lit_of(pat)
+            if patc != ",":
+                continue        # not the list joiner (key=value parts, tag prefixes, ...)
+            recv = args[0]
+            guarded = False
+            for a, pol in r.facts.order[:e[7]]:
+                if a[0] == "truth" and pol is False and isinstance(a[1], tuple) and a[1][0] == "call" and a[1][1].endswith("::is_empty") \
+                        and _related(a[1][2][0], recv):
+                    guarded = True
+                if a[0] == "lt" and pol is True and a[1] == Int(0) and isinstance(a[2], tuple) and a[2][0] == "strlen" and _related(a[2][1], recv):
+                    guarded = True
+                if a[0] == "eq" and pol is False and (lit_of(a[1]) == "" or lit_of(a[2]) == "") and (_related(a[1], recv) or _related(a[2], recv)):
+                    guarded = True
+            if not guarded:
+                # the pieces are filtered for emptiness further down the iterator chain
+                val = e[3]
+                for e2 in r.trace[i + 1:]:
+                    for t in (tuple(e2[2]) if len(e2) > 2 and isinstance(e2[2], tuple) else ()) + ((e2[3],) if len(e2) > 3 else ()):
+                        for x in subterms(t):
+                            if isinstance(x, tuple) and x and x[0] == "call" and isinstance(x[1], str) and x[1].endswith("::filter") and len(x[2]) == 2 \
+                                    and any(y == val for y in subterms(x[2][0])):
+                                clo = x[2][1]
+                                if isinstance(clo, tuple) and clo[0] == "agg" and isinstance(clo[1], str) and clo[1].startswith("closure:"):
+                                    cb = ctx.db.bodies.get(clo[1][len("closure:"):])
+                                    if cb is not None and any(
+                                            (bt["term"].get("callee") or {}).get("path", "").endswith("::is_empty")
+                                            for bt in cb.blocks if bt["term"]["k"] == "call"):
+                                        guarded = True
+            k = (e[5])
+            seen[k] = seen.get(k, True) and guarded
+    # closures handed to an opaque iterator adapter (`.flat_map(|body| body.split(','))`) are never entered on the walk
+    # above: walk them on their own; their pieces count as guarded only when the chain filters empty pieces afterwards
+    entered = set()
+    for r in allres:
+        for e in r.trace:
+            site = e[4] if len(e) > 4 and isinstance(e[4], tuple) else ()
+            for fr_ in site:
+                if isinstance(fr_, tuple) and fr_ and isinstance(fr_[0], str):
+                    entered.add(fr_[0])
+    for d in sorted(T.helpers_of(ctx, fb)):
+        bd = ctx.db.bodies.get(d)
+        if bd is None or bd.kind != "Closure" or d in entered:
+            continue
+        try:
+            sub = ctx.walker(max_depth=2).walk(bd)
+        except Exception:
+            continue
+        for r in sub:
+            for e in r.trace:
+                if e[0] != "call" or e[1] not in SPLITS or len(e) < 8:
+                    continue
+                args = e[2]
+                pat = args[-1] if e[1] in ("core::str::split", "core::str::rsplit", "core::str::split_inclusive") else (args[2] if len(args) > 2 else None)
+                patc = chr(pat[1]) if is_int(pat) and 0 <= pat[1] < 0x110000 else lit_of(pat)
+                if patc != ",":
+                    continue
+                guarded = any(a[0] == "truth" and pol is False and isinstance(a[1], tuple) and a[1][0] == "call" and a[1][1].endswith("::is_empty")
+                              for a, pol in r.facts.order[:e[7]])
+                if not guarded:
+                    guarded = _filtered_downstream(ctx, allres, ("closure:" + d))
+                seen[e[5]] = seen.get(e[5], True) and guarded
+    chk.stats["list_splits"] = chk.stats.get("list_splits", 0) + len(seen)
+    for span, ok in sorted(seen.items()):
+        chk.require(ok, "X9", "%s:empty-list" % ty, span,
+                    "the list body is cut with str::split(',') on a path where it may be empty and the empty piece is not dropped: "
+                    "the printed form of an empty list (nothing between the brackets) reaches the element parser as \"\" and is rejected")
 
 
 # ------------------------------------------------------------------------------------------ key=value types
@@ -270,8 +437,8 @@ def _check_kv(ctx, chk, db, W, ty, adt, ents, paths, fb, is_enum, lit_seen):
                             chk.require(wl.get(term[2]) in lits2, "X7", "%s:%s:%s" % (key, k, term[2]), e.callsite,
                                         "%s::%s prints %r but this path accepted %s" % (base, term[2], wl.get(term[2]), lits2), describe_path(p.r))
                         else:
-                            chk.require(own_parser(calls), "X4", "%s:%s:conv" % (key, k), e.callsite,
-                                        "field %s of type %s is not read with its own parser (%s)" % (field, base, calls[:4]), describe_path(p.r))
+                            chk.require(own_parser(calls) and direct_own_parser(term, base), "X4", "%s:%s:conv" % (key, k), e.callsite,
+                                        "field %s of type %s is not read with its own parser (%s)" % (field, base, p.calls_of(term)[:4]), describe_path(p.r))
                 elif idiom == "debug-upper":
                     base = strip_generics(t0).split("::")[-1]
                     chk.require(is_unit_enum(db, base), "X4", "%s:%s:debug-idiom" % (key, k), e.callsite, "Debug+to_uppercase used for non unit-enum %s" % base)
@@ -455,8 +622,17 @@ def check_list(ctx, chk, db, W, ty, ents, paths, fb, elem):
     opener = [l for l in plain if l.endswith("[")]
     closer = [l for l in plain if l == "]"]
     joiner = [l for l in plain if l not in opener and l not in closer]
-    chk.require(len(opener) == 1 and len(closer) == 1 and len(joiner) == 1 and len(withph) == 1, "X9", ty + ":writer-shape", ents[0].callsite,
-                "list writer literals: %s" % plain)
+    # element templates: the bare `{}`, or the joiner attached to the element (`",{}"` for every element but the first,
+    # which then needs its own bare template - `split_first` style)
+    attached = sorted({e.literal_text() for e in withph if e.literal_text() and len(e.placeholders()) == 1 and e.template.startswith(e.literal_text())})
+    bare = [e for e in withph if not e.literal_text() and len(e.placeholders()) == 1]
+    if not joiner and len(attached) == 1 and bare and len(withph) == len(bare) + len([e for e in withph if e.literal_text() == attached[0]]):
+        joiner = list(attached)
+        shape_ok = len(opener) == 1 and len(closer) == 1 and len(bare) == 1 and len(withph) == 2
+    else:
+        shape_ok = len(opener) == 1 and len(closer) == 1 and len(joiner) == 1 and len(withph) == 1
+    chk.require(shape_ok, "X9", ty + ":writer-shape", ents[0].callsite,
+                "list writer literals: %s, element templates %s" % (plain, [e.template for e in withph]))
     if not (opener and closer and joiner):
         return
     strs, chars = T.str_and_char_consts(db, fb, T.helpers_of(ctx, fb))
@@ -575,8 +751,8 @@ def check_level(ctx, chk, db, W, ents, fb):
             continue
         rkeys.add(k)
     strs0, _chars0 = T.str_and_char_consts(db, fb, T.helpers_of(ctx, fb))
-    if not any("HashMap" in ((t["callee"] or {}).get("impl_self") or "") for d in T.helpers_of(ctx, fb) for bb, t in db.bodies[d].calls()) and "orders=[" in strs0:
-        rkeys.add("orders")      # the order list is located by searching for its `orders=[` opener
+    if "orders=[" in strs0:
+        rkeys.add("orders")      # the order list is located by searching for its `orders=[` opener (with or without a map entry for it)
     wkeyset = set(wkeys) | ({"orders"} if re.search(r"(?:^|[;:])orders=\[$", e.template) else set())
     chk.require(rkeys <= wkeyset and {"price", "orders"} <= rkeys, "X2", "PriceLevel", e.callsite,
                 "keys written %s; keys the parser consults %s (content = price + orders)" % (sorted(wkeys), sorted(str(k) for k in rkeys)))
@@ -649,13 +825,16 @@ def check_match_result(ctx, chk, db, W, adt, ents, paths, allres, fb):
     for f in ftys:
         used = set()
         calls = set()
+        fcalls = set()
         for p in paths:
             t = p.fields.get(f)
+            fcalls |= set(p.calls_of(t))
             used |= {s[2] for s in subterms(t) if isinstance(s, tuple) and s[0] == "havoc" and len(s) == 3 and isinstance(s[2], int) and s[2] in allslots}
             calls |= {c.split("::")[-1] for c in p.calls_of(t)}
             for c in [x for x in subterms(t) if isinstance(x, tuple) and x and x[0] == "agg" and isinstance(x[1], str) and x[1].startswith("closure:")]:
                 for d in ctx.cg.reach([c[1][len("closure:"):]]):
                     calls.add(d.split("::")[-1])
+                    fcalls.add(d)
         keys = sorted(k for k, ls in slot_of_key.items() if ls & used)
         chk.require(keys == [f], "X3", "MatchResult:%s" % f, fb.span,
                     "field %s of the parsed result is built from the slot(s) filled by key(s) %s" % (f, keys))
@@ -663,7 +842,8 @@ def check_match_result(ctx, chk, db, W, adt, ents, paths, allres, fb):
         if fty in INT_TYS or fty == "bool":
             chk.require("parse" in calls, "X4", "MatchResult:%s:conv" % f, fb.span, "%s not read with str::parse (%s)" % (f, sorted(calls)[:4]))
         else:
-            chk.require(own_parser(calls), "X4", "MatchResult:%s:conv" % f, fb.span, "%s not read with its own parser (%s)" % (f, sorted(calls)[:6]))
+            chk.require(own_parser(calls) and typed_own_parser(fcalls, elem_base(fty)), "X4", "MatchResult:%s:conv" % f, fb.span,
+                        "%s not read with its own parser (%s)" % (f, sorted(fcalls)[:6]))
     # brackets / joiner of the id list and the nested transaction list
     chk.require("[" in chars and "]" in chars or ("[" in "".join(strs) and "]" in "".join(strs)), "X9", "MatchResult:brackets", fb.span, "parser bracket constants %s" % sorted(chars))
     chk.require("," in chars or "," in strs, "X9", "MatchResult:joiner", fb.span, "parser does not split the id list on ','")
@@ -695,10 +875,25 @@ def check_order_id_text_pair(ctx, chk, rid):
         def __getattr__(self, n):
             return getattr(self.chk, n)
     db = ctx.db
-    W = T.Writers(db)
+    W = T.Writers(db, ctx)
     fb = db.method("OrderId", "from_str", trait="FromStr")
     paths, allres = T.reader_paths(ctx, fb)
     rc = Relabel(chk, rid)
     if not rc.require(len(paths) >= 1 and "OrderId" in W.by_type, "X0", "OrderId:tables", fb.span, "no reader/writer table for OrderId"):
         return
     check_order_id(ctx, rc, db, W, W.by_type["OrderId"], paths, fb)
+
+
+def check_level_text_pair(ctx, chk, rid):
+    """the Display/FromStr pair of PriceLevel (keys, tag, order list structure incl. the empty list), checked under
+    another property's rule id (C10: rebuilding a level from its text form always succeeds)"""
+    from ..report import Relabel
+    db = ctx.db
+    W = T.Writers(db, ctx)
+    fb = db.method("PriceLevel", "from_str", trait="FromStr")
+    paths, allres = T.reader_paths(ctx, fb)
+    rc = Relabel(chk, rid, "text:")
+    if not rc.require(len(paths) >= 1 and "PriceLevel" in W.by_type, "X0", "PriceLevel:tables", fb.span, "no reader/writer table for PriceLevel"):
+        return
+    check_level(ctx, rc, db, W, W.by_type["PriceLevel"], fb)
+    check_empty_list(ctx, rc, "PriceLevel", allres, fb)
